@@ -47,6 +47,24 @@ fn main() {
             });
             std::process::exit(runner::replay_file(def, std::path::Path::new(&args[3])));
         }
+        "c15-child" => {
+            // c15-child <tier> <seed> <worker> <cases> <out> <crumb>
+            let tier = if args[2] == "thorough" { Tier::Thorough } else { Tier::Quick };
+            let seed: u64 = args[3].parse().unwrap();
+            let worker: u64 = args[4].parse().unwrap();
+            let cases: u64 = args[5].parse().unwrap();
+            std::process::exit(acverif::props::packed::c15_child(
+                tier,
+                seed,
+                worker,
+                cases,
+                std::path::Path::new(&args[6]),
+                std::path::Path::new(&args[7]),
+            ));
+        }
+        "c15-one" => {
+            std::process::exit(acverif::props::packed::c15_one(std::path::Path::new(&args[2])));
+        }
         _ => usage(),
     }
 }
